@@ -12,11 +12,12 @@ LEVEL = "model_checking"
 CONF_Q = [("isi", {}), ("isi", {"MRTS": 2 * U}), ("spike", {}), ("spike", {"RI": True}),
           ("spike", {"MRTS": 1.5 * U}), ("spike", {"MRTS": 2 * U, "RI": True}),
           ("sync", {}), ("sync", {"max_tau": U}), ("sync", {"MRTS": 6 * U}),
-          ("order", {}), ("order", {"max_tau": U, "MRTS": 6 * U})]
+          ("order", {}), ("order", {"max_tau": U, "MRTS": 6 * U}), ("isi", {"MRTS": "auto"}),
+          ("spike", {"MRTS": "auto", "RI": True}), ("sync", {"MRTS": "auto"})]
 CONF_T = CONF_Q + [("isi", {"MRTS": 0.5 * U}), ("isi", {"MRTS": 40 * U}), ("spike", {"MRTS": 40 * U}),
                    ("spike", {"MRTS": 0.5 * U, "RI": True}), ("sync", {"max_tau": 0.5 * U, "MRTS": 8 * U}),
                    ("sync", {"MRTS": 12 * U}), ("order", {"MRTS": 12 * U}), ("order", {"max_tau": 2 * U}),
-                   ("isi", {"MRTS": "auto"}), ("spike", {"MRTS": "auto"}), ("sync", {"MRTS": "auto"})]
+                   ("spike", {"MRTS": "auto"}), ("order", {"MRTS": "auto"})]
 EPS = 1e-12
 
 
@@ -24,7 +25,11 @@ def some_intervals(k):
     pts = [T0 + j * U / 2 for j in range(2 * k + 1)]
     n = len(pts) - 1
     idx = {(0, 1), (0, n // 2), (1, n - 1), (n // 2, n), (n - 1, n), (1, n)}
-    return sorted((pts[i], pts[j]) for i, j in idx if i < j)
+    out = sorted((pts[i], pts[j]) for i, j in idx if i < j)
+    if n >= 4:
+        # a sequence of two intervals of unequal length
+        out.append(((pts[0], pts[1]), (pts[n // 2], pts[n])))
+    return out
 
 
 def plan(tier):
@@ -114,15 +119,17 @@ def evaluate(r, trains, edges, name, kw, ivals, be, rank=()):
     if name != "order":
         for iv in ivals:
             try:
-                a = float(o["profile"].avrg(list(iv)))
+                ivl = [list(x) for x in iv] if isinstance(iv[0], tuple) else list(iv)
+                a = float(o["profile"].avrg(ivl))
                 kw2 = dict(kw)
                 d = float({"isi": spk.isi_distance, "spike": spk.spike_distance,
-                           "sync": spk.spike_sync}[name](st1, st2, interval=list(iv), **kw2))
+                           "sync": spk.spike_sync}[name](st1, st2, interval=ivl, **kw2))
             except Exception as e:
                 _v(r, "exception", be, name, cls, dict(case, interval=iv), "a number",
                    "%s: %s" % (type(e).__name__, e), "sub-interval averaging raised", rank)
                 return
-            if not (np.isfinite(d) and lo - EPS <= d <= hi + EPS):
+            if not (np.isfinite(d) and lo - EPS <= d <= hi + EPS and
+                    np.isfinite(a) and lo - EPS <= a <= hi + EPS):
                 _v(r, "range.interval", be, name, cls, dict(case, interval=iv), [lo, hi], d,
                    "sub-interval result outside its range", rank)
                 return
